@@ -116,8 +116,8 @@ impl Check for C03 {
                 Section { name: "large-streams-sampled-cuts", runs: 1_800 },
             ],
             Tier::Thorough => vec![
-                Section { name: "small-streams-every-cut", runs: 60_000 },
-                Section { name: "large-streams-sampled-cuts", runs: 20_000 },
+                Section { name: "small-streams-every-cut", runs: 300_000 },
+                Section { name: "large-streams-sampled-cuts", runs: 90_000 },
             ],
         }
     }
